@@ -149,15 +149,16 @@ def resolveSpec (ctx : Ctx) (cps : List Nat) : Bytes × List Ref :=
 def canon (cps : List Nat) : Bytes :=
   weave cps 0 ((refsOf cps).map (fun x => ⟨x.1, x.2.1, x.2.2, x.2.2.toString⟩))
 
-/-- what `TranslateRaw` must put in place of one found reference: an entity reference whose
-name is mapped to a different name is re-spelled with the new name; every other reference
-keeps its original bytes. -/
+/-- what `TranslateRaw` must put in place of one found reference: in an entity reference whose
+name is mapped to a different name the name - the bytes right after `@{` - is replaced and the
+rest of the reference keeps its original bytes (tags as typed); every other reference keeps its
+original bytes. -/
 def translatedItem (tr : Bytes → Option Bytes) (cps : List Nat) (x : Nat × Nat × RefData) : Found :=
   let orig := encode (slice cps x.1 x.2.1)
   match x.2.2 with
-  | .entity n f =>
+  | .entity n _ =>
     match tr n with
-    | some n' => if n' = n then ⟨x.1, x.2.1, x.2.2, orig⟩ else ⟨x.1, x.2.1, x.2.2, (RefData.entity n' f).toString⟩
+    | some n' => if n' = n then ⟨x.1, x.2.1, x.2.2, orig⟩ else ⟨x.1, x.2.1, x.2.2, orig.take 2 ++ n' ++ orig.drop (2 + n.length)⟩
     | none => ⟨x.1, x.2.1, x.2.2, orig⟩
   | .collab .. => ⟨x.1, x.2.1, x.2.2, orig⟩
 
